@@ -4,6 +4,8 @@ import Hgxv.Proofs.C10Simplicial
 import Hgxv.Proofs.C10Bipartite
 import Hgxv.Proofs.C10Similarity
 import Hgxv.Proofs.C10Link
+import Hgxv.Proofs.C10Rel
+import Mathlib.Data.List.Nodup
 import Mathlib.Tactic.NormNum.Inv
 import Mathlib.Tactic.NormNum.Ineq
 /-! # C10 — graph projections encode exactly the incidence structure of the hypergraph
@@ -876,3 +878,931 @@ example : ((3 : Rat) / 5 + 1 / 9007199254740992 ≤ id ((3 : Rat) / 5)) ↔ ((3 
 
 example : (id ((3 : Rat) / 5) ≤ id ((2 : Rat) / 3)) ↔ ((3 : Rat) / 5 ≤ 2 / 3) :=
   C10_threshold_on_rounded_value id (fun _ _ h => h) (fun _ => True) (fun _ _ _ _ h => h) _ _ trivial trivial
+
+/-! ## Extension round: every threshold, structure of the line graph, the incidence matrix behind the projections -/
+
+/-- **`line_graph` for EVERY threshold** (also `s ≤ 0`, outside the property's quantifier): `i — j` is an edge exactly when
+`i ≠ j`, the two hyperedges share a node AND their value is at least `s` - the pair enumeration through the incident
+lists never evaluates disjoint hyperedges, so for `s ≤ 0` the result is NOT the complete graph.  For `s > 0` the
+"share a node" clause is implied by the value (`C10_line`). -/
+theorem C10_line_all_thresholds (nodes : List Nat) (es : List Edge) (d : Dist) (s : Rat) (weighted : Bool)
+    (hes : es.Nodup) (hnd : ∀ e ∈ es, e.Nodup) (hmem : ∀ e ∈ es, ∀ n ∈ e, n ∈ nodes) :
+    ∃ r, lineGraph nodes es d s weighted = some r ∧
+      AL.keys r.g.nodes = List.range es.length ∧
+      (∀ i j a, AL.get? r.g.adj (i, j) = some a ↔
+        ∃ (hi : i < es.length) (hj : j < es.length), i ≠ j ∧ (∃ n, n ∈ es[i] ∧ n ∈ es[j]) ∧
+          s ≤ distV d es[i] es[j] ∧ a = some (if weighted then distV d es[i] es[j] else 1)) := by
+  obtain ⟨hA, hC, hB⟩ := incident_table_ok nodes es hes hmem
+  exact lineGraphFrom_spec_any es d s weighted _ hes hnd hA hC hB
+
+/-- the same, read by HYPEREDGE instead of by id: for two listed hyperedges `e`, `f` the vertices `edge_to_id[e]`,
+`edge_to_id[f]` are joined exactly when `e ≠ f`, they share a node and their value is at least `s`.  The right-hand
+side mentions neither the node list nor the order of `get_edges()`. -/
+theorem C10_line_by_hyperedge (nodes : List Nat) (es : List Edge) (d : Dist) (s : Rat) (weighted : Bool)
+    (hes : es.Nodup) (hnd : ∀ e ∈ es, e.Nodup) (hmem : ∀ e ∈ es, ∀ n ∈ e, n ∈ nodes) :
+    ∃ r, lineGraph nodes es d s weighted = some r ∧
+      ∀ e ∈ es, ∀ f ∈ es, ∀ a, AL.get? r.g.adj (idOf es e, idOf es f) = some a ↔
+        e ≠ f ∧ (∃ n, n ∈ e ∧ n ∈ f) ∧ s ≤ distV d e f ∧ a = some (if weighted then distV d e f else 1) := by
+  obtain ⟨r, hr, _, h3⟩ := C10_line_all_thresholds nodes es d s weighted hes hnd hmem
+  refine ⟨r, hr, ?_⟩
+  intro e he f hf a
+  rw [h3]
+  constructor
+  · rintro ⟨hi, hj, hne, hsh, hle, ha⟩
+    rw [getElem_idOf he, getElem_idOf hf] at hsh hle ha
+    exact ⟨fun h => hne (by rw [h]), hsh, hle, ha⟩
+  · rintro ⟨hne, hsh, hle, ha⟩
+    refine ⟨idOf_lt he, idOf_lt hf, fun h => hne (idOf_inj he hf h), ?_, ?_, ?_⟩
+    · rw [getElem_idOf he, getElem_idOf hf]; exact hsh
+    · rw [getElem_idOf he, getElem_idOf hf]; exact hle
+    · rw [getElem_idOf he, getElem_idOf hf]; exact ha
+
+/-- **insertion order does not matter**: two listings of the same hypergraph (hyperedge lists permutations of each other,
+ANY two node lists that contain all members) give line graphs that join the same hyperedges with the same weights - only
+the vertex numbers `edge_to_id` move with the listing. -/
+theorem C10_line_listing_order_invariant (nodes nodes' : List Nat) (es es' : List Edge) (d : Dist) (s : Rat)
+    (weighted : Bool) (hp : es.Perm es') (hes : es.Nodup) (hnd : ∀ e ∈ es, e.Nodup)
+    (hmem : ∀ e ∈ es, ∀ n ∈ e, n ∈ nodes) (hmem' : ∀ e ∈ es, ∀ n ∈ e, n ∈ nodes') :
+    ∃ r r', lineGraph nodes es d s weighted = some r ∧ lineGraph nodes' es' d s weighted = some r' ∧
+      ∀ e ∈ es, ∀ f ∈ es, ∀ a,
+        AL.get? r'.g.adj (idOf es' e, idOf es' f) = some a ↔ AL.get? r.g.adj (idOf es e, idOf es f) = some a := by
+  obtain ⟨r, hr, h⟩ := C10_line_by_hyperedge nodes es d s weighted hes hnd hmem
+  obtain ⟨r', hr', h'⟩ := C10_line_by_hyperedge nodes' es' d s weighted (hp.nodup_iff.1 hes)
+    (fun e he => hnd e (hp.mem_iff.2 he)) (fun e he => hmem' e (hp.mem_iff.2 he))
+  refine ⟨r, r', hr, hr', ?_⟩
+  intro e he f hf a
+  rw [h e he f hf, h' e (hp.mem_iff.1 he) f (hp.mem_iff.1 hf)]
+
+/-- the line graph is symmetric (same attribute in both directions) and has no loops -/
+theorem C10_line_symmetric_loop_free (nodes : List Nat) (es : List Edge) (d : Dist) (s : Rat) (weighted : Bool)
+    (hes : es.Nodup) (hnd : ∀ e ∈ es, e.Nodup) (hmem : ∀ e ∈ es, ∀ n ∈ e, n ∈ nodes) :
+    ∃ r, lineGraph nodes es d s weighted = some r ∧
+      (∀ i j a, AL.get? r.g.adj (i, j) = some a → AL.get? r.g.adj (j, i) = some a) ∧
+      (∀ i, AL.get? r.g.adj (i, i) = none) := by
+  obtain ⟨r, hr, _, h3⟩ := C10_line_all_thresholds nodes es d s weighted hes hnd hmem
+  refine ⟨r, hr, ?_, ?_⟩
+  · intro i j a h
+    obtain ⟨hi, hj, hne, ⟨n, h1, h2⟩, hle, ha⟩ := (h3 i j a).1 h
+    have hc := distV_comm d es[i] es[j] (hnd _ (List.getElem_mem hi)) (hnd _ (List.getElem_mem hj))
+    refine (h3 j i a).2 ⟨hj, hi, hne.symm, ⟨n, h2, h1⟩, ?_, ?_⟩
+    · rw [← hc]; exact hle
+    · rw [← hc]; exact ha
+  · intro i
+    cases h : AL.get? r.g.adj (i, i) with
+    | none => rfl
+    | some a => obtain ⟨_, _, hne, _⟩ := (h3 i i a).1 h; exact absurd rfl hne
+
+/-- **monotone in `s`**: raising the threshold only removes edges; the edges that stay keep their attribute -/
+theorem C10_line_monotone_in_s (nodes : List Nat) (es : List Edge) (d : Dist) (s s' : Rat) (weighted : Bool)
+    (hes : es.Nodup) (hnd : ∀ e ∈ es, e.Nodup) (hmem : ∀ e ∈ es, ∀ n ∈ e, n ∈ nodes) (hss : s ≤ s') :
+    ∃ r r', lineGraph nodes es d s weighted = some r ∧ lineGraph nodes es d s' weighted = some r' ∧
+      ∀ i j a, AL.get? r'.g.adj (i, j) = some a → AL.get? r.g.adj (i, j) = some a := by
+  obtain ⟨r, hr, _, h3⟩ := C10_line_all_thresholds nodes es d s weighted hes hnd hmem
+  obtain ⟨r', hr', _, h3'⟩ := C10_line_all_thresholds nodes es d s' weighted hes hnd hmem
+  refine ⟨r, r', hr, hr', ?_⟩
+  intro i j a h
+  obtain ⟨hi, hj, hne, hsh, hle, ha⟩ := (h3' i j a).1 h
+  exact (h3 i j a).2 ⟨hi, hj, hne, hsh, le_trans hss hle, ha⟩
+
+/-- `weighted` changes the attribute only: the weighted and the unweighted line graph have the same edges -/
+theorem C10_line_weighted_same_edges (nodes : List Nat) (es : List Edge) (d : Dist) (s : Rat)
+    (hes : es.Nodup) (hnd : ∀ e ∈ es, e.Nodup) (hmem : ∀ e ∈ es, ∀ n ∈ e, n ∈ nodes) :
+    ∃ r r', lineGraph nodes es d s false = some r ∧ lineGraph nodes es d s true = some r' ∧
+      ∀ i j, (∃ a, AL.get? r'.g.adj (i, j) = some a) ↔ AL.get? r.g.adj (i, j) = some (some 1) := by
+  obtain ⟨r, hr, _, h3⟩ := C10_line_all_thresholds nodes es d s false hes hnd hmem
+  obtain ⟨r', hr', _, h3'⟩ := C10_line_all_thresholds nodes es d s true hes hnd hmem
+  refine ⟨r, r', hr, hr', ?_⟩
+  intro i j
+  constructor
+  · rintro ⟨a, h⟩
+    obtain ⟨hi, hj, hne, hsh, hle, _⟩ := (h3' i j a).1 h
+    exact (h3 i j _).2 ⟨hi, hj, hne, hsh, hle, by simp⟩
+  · intro h
+    obtain ⟨hi, hj, hne, hsh, hle, _⟩ := (h3 i j _).1 h
+    exact ⟨_, (h3' i j _).2 ⟨hi, hj, hne, hsh, hle, rfl⟩⟩
+
+/-- **`s = 1` with the intersection distance is the intersection graph** (and so is every `s ≤ 1`): `i — j` exactly when
+the hyperedges `i ≠ j` share a node -/
+theorem C10_line_intersection_graph (nodes : List Nat) (es : List Edge) (s : Rat) (weighted : Bool)
+    (hes : es.Nodup) (hnd : ∀ e ∈ es, e.Nodup) (hmem : ∀ e ∈ es, ∀ n ∈ e, n ∈ nodes) (hs : s ≤ 1) :
+    ∃ r, lineGraph nodes es .intersection s weighted = some r ∧
+      ∀ i j, (∃ a, AL.get? r.g.adj (i, j) = some a) ↔
+        ∃ (hi : i < es.length) (hj : j < es.length), i ≠ j ∧ ∃ n, n ∈ es[i] ∧ n ∈ es[j] := by
+  obtain ⟨r, hr, _, h3⟩ := C10_line_all_thresholds nodes es .intersection s weighted hes hnd hmem
+  refine ⟨r, hr, ?_⟩
+  intro i j
+  constructor
+  · rintro ⟨a, h⟩
+    obtain ⟨hi, hj, hne, hsh, _, _⟩ := (h3 i j a).1 h
+    exact ⟨hi, hj, hne, hsh⟩
+  · rintro ⟨hi, hj, hne, hsh⟩
+    refine ⟨_, (h3 i j _).2 ⟨hi, hj, hne, hsh, ?_, rfl⟩⟩
+    have hpos : 0 < interSize es[i] es[j] := (interSize_pos_iff _ _).2 hsh
+    have : (1 : Rat) ≤ (interSize es[i] es[j] : Rat) := by exact_mod_cast hpos
+    exact le_trans hs this
+
+/-- **a threshold `s ≤ 0`** (outside the quantifier) does not give the complete graph: still only hyperedges that share a
+node are joined, whatever the distance -/
+theorem C10_line_nonpositive_threshold (nodes : List Nat) (es : List Edge) (d : Dist) (s : Rat) (weighted : Bool)
+    (hes : es.Nodup) (hnd : ∀ e ∈ es, e.Nodup) (hmem : ∀ e ∈ es, ∀ n ∈ e, n ∈ nodes) (hs : s ≤ 0) :
+    ∃ r, lineGraph nodes es d s weighted = some r ∧
+      ∀ i j, (∃ a, AL.get? r.g.adj (i, j) = some a) ↔
+        ∃ (hi : i < es.length) (hj : j < es.length), i ≠ j ∧ ∃ n, n ∈ es[i] ∧ n ∈ es[j] := by
+  obtain ⟨r, hr, _, h3⟩ := C10_line_all_thresholds nodes es d s weighted hes hnd hmem
+  refine ⟨r, hr, ?_⟩
+  intro i j
+  constructor
+  · rintro ⟨a, h⟩
+    obtain ⟨hi, hj, hne, hsh, _, _⟩ := (h3 i j a).1 h
+    exact ⟨hi, hj, hne, hsh⟩
+  · rintro ⟨hi, hj, hne, hsh⟩
+    refine ⟨_, (h3 i j _).2 ⟨hi, hj, hne, hsh, le_trans hs ?_, rfl⟩⟩
+    cases d with
+    | intersection => simp [distV]
+    | jaccard => simp only [distV]; exact div_nonneg (Nat.cast_nonneg _) (Nat.cast_nonneg _)
+
+/-- **relabelling**: renaming the nodes by an injective map changes nothing in the line graph (same vertices, same
+edges, same weights): the routine sees the nodes only through membership -/
+theorem C10_line_relabel (f : Nat → Nat) (hf : Function.Injective f) (nodes : List Nat) (es : List Edge) (d : Dist)
+    (s : Rat) (weighted : Bool) (hes : es.Nodup) (hnd : ∀ e ∈ es, e.Nodup) (hmem : ∀ e ∈ es, ∀ n ∈ e, n ∈ nodes) :
+    ∃ r r', lineGraph nodes es d s weighted = some r ∧
+      lineGraph (nodes.map f) (es.map (List.map f)) d s weighted = some r' ∧
+      AL.keys r'.g.nodes = AL.keys r.g.nodes ∧
+      ∀ i j a, AL.get? r'.g.adj (i, j) = some a ↔ AL.get? r.g.adj (i, j) = some a := by
+  obtain ⟨r, hr, hk, h3⟩ := C10_line_all_thresholds nodes es d s weighted hes hnd hmem
+  have hinj : Function.Injective (List.map f) := List.map_injective_iff.2 hf
+  obtain ⟨r', hr', hk', h3'⟩ := C10_line_all_thresholds (nodes.map f) (es.map (List.map f)) d s weighted
+    (hes.map hinj)
+    (by intro e he; obtain ⟨e0, he0, rfl⟩ := List.mem_map.1 he; exact (hnd e0 he0).map hf)
+    (by intro e he n hn; obtain ⟨e0, he0, rfl⟩ := List.mem_map.1 he
+        obtain ⟨n0, hn0, rfl⟩ := List.mem_map.1 hn; exact List.mem_map.2 ⟨n0, hmem e0 he0 n0 hn0, rfl⟩)
+  refine ⟨r, r', hr, hr', by rw [hk, hk', List.length_map], ?_⟩
+  have hsh : ∀ a b : List Nat, (∃ n, n ∈ a.map f ∧ n ∈ b.map f) ↔ ∃ n, n ∈ a ∧ n ∈ b := by
+    intro a b
+    constructor
+    · rintro ⟨n, h1, h2⟩
+      obtain ⟨x, hx, rfl⟩ := List.mem_map.1 h1
+      obtain ⟨y, hy, he⟩ := List.mem_map.1 h2
+      exact ⟨x, hx, hf he ▸ hy⟩
+    · rintro ⟨n, h1, h2⟩; exact ⟨f n, List.mem_map.2 ⟨n, h1, rfl⟩, List.mem_map.2 ⟨n, h2, rfl⟩⟩
+  intro i j a
+  rw [h3, h3']
+  constructor
+  · rintro ⟨hi, hj, hne, hs1, hle, ha⟩
+    have hi' : i < es.length := by simpa using hi
+    have hj' : j < es.length := by simpa using hj
+    simp only [List.getElem_map, distV_map hf, hsh] at hs1 hle ha
+    exact ⟨hi', hj', hne, hs1, hle, ha⟩
+  · rintro ⟨hi, hj, hne, hs1, hle, ha⟩
+    refine ⟨by simpa using hi, by simpa using hj, hne, ?_, ?_, ?_⟩
+    · simp only [List.getElem_map, hsh]; exact hs1
+    · simp only [List.getElem_map, distV_map hf]; exact hle
+    · simp only [List.getElem_map, distV_map hf]; exact ha
+
+/-! ### the incidence matrix `B` behind the projections: `B·Bᵀ` and `Bᵀ·B` -/
+
+/-- entries of the two Gram matrices of the binary incidence matrix of the listing: `(B·Bᵀ)[u][v]` is the number of
+hyperedges that contain both `u` and `v` (diagonal: the degree of `u`, the length of `get_incident_edges(u)`);
+`(Bᵀ·B)[a][b]` is `|a ∩ b|` (diagonal: the size of `a`). -/
+theorem C10_gram_matrices (nodes : List Nat) (es : List Edge) (hn : nodes.Nodup) (hnd : ∀ e ∈ es, e.Nodup)
+    (hmem : ∀ e ∈ es, ∀ n ∈ e, n ∈ nodes) :
+    nodeGram nodes es = nodes.map (fun u => nodes.map (fun v => es.countP (fun e => e.contains u && e.contains v))) ∧
+    (∀ u, cooc es u u = (incident es u).length) ∧
+    edgeGram nodes es = es.map (fun a => es.map (fun b => interSize a b)) ∧
+    (∀ e ∈ es, overlap nodes e e = e.length) := by
+  refine ⟨?_, ?_, ?_, ?_⟩
+  · unfold nodeGram
+    apply List.map_congr_left; intro u _
+    apply List.map_congr_left; intro v _
+    exact cooc_eq es u v
+  · intro u
+    rw [cooc_eq]; unfold incident
+    rw [List.countP_eq_length_filter]
+    congr 1; apply List.filter_congr; intro e _; simp
+  · unfold edgeGram
+    apply List.map_congr_left; intro a ha
+    apply List.map_congr_left; intro b _
+    exact overlap_eq nodes a b hn (hnd a ha) (hmem a ha)
+  · intro e he
+    rw [overlap_eq nodes e e hn (hnd e he) (hmem e he), interSize_self]
+
+/-- **the clique projection is the off-diagonal support of `B·Bᵀ`**: `u — v` exactly when `u ≠ v` and the number of
+hyperedges containing both is positive -/
+theorem C10_clique_is_gram_support (keepIso : Bool) (nodes : List Nat) (es : List Edge) (hnd : ∀ e ∈ es, e.Nodup)
+    (u v : Nat) (a : Option Rat) :
+    AL.get? (clique keepIso nodes es).adj (u, v) = some a ↔ a = none ∧ u ≠ v ∧ 0 < cooc es u v := by
+  rw [(C10_clique keepIso nodes es hnd).1, cooc_pos_iff]
+
+/-- **the line graph (intersection distance) is `Bᵀ·B` thresholded at `s`**, off the diagonal; the weight is the entry -/
+theorem C10_line_is_gram_threshold (nodes : List Nat) (es : List Edge) (s : Rat) (weighted : Bool)
+    (hn : nodes.Nodup) (hes : es.Nodup) (hnd : ∀ e ∈ es, e.Nodup) (hmem : ∀ e ∈ es, ∀ n ∈ e, n ∈ nodes) (hs : 0 < s) :
+    ∃ r, lineGraph nodes es .intersection s weighted = some r ∧
+      ∀ i j a, AL.get? r.g.adj (i, j) = some a ↔
+        ∃ (hi : i < es.length) (hj : j < es.length), i ≠ j ∧ s ≤ (overlap nodes es[i] es[j] : Rat) ∧
+          a = some (if weighted then (overlap nodes es[i] es[j] : Rat) else 1) := by
+  obtain ⟨r, hr, _, h3, _⟩ := C10_line nodes es .intersection s weighted hes hnd hmem hs
+  refine ⟨r, hr, ?_⟩
+  intro i j a
+  rw [h3]
+  have key : ∀ (hi : i < es.length) (hj : j < es.length),
+      distV .intersection es[i] es[j] = (overlap nodes es[i] es[j] : Rat) := by
+    intro hi hj
+    rw [overlap_eq nodes _ _ hn (hnd _ (List.getElem_mem hi)) (hmem _ (List.getElem_mem hi))]; rfl
+  constructor
+  · rintro ⟨hi, hj, hne, hle, ha⟩
+    rw [key hi hj] at hle ha; exact ⟨hi, hj, hne, hle, ha⟩
+  · rintro ⟨hi, hj, hne, hle, ha⟩
+    rw [← key hi hj] at hle ha; exact ⟨hi, hj, hne, hle, ha⟩
+
+/-! ### clique projection: structure, invariances, relation to the other projections -/
+
+/-- the clique projection is symmetric and loop-free -/
+theorem C10_clique_symmetric_loop_free (keepIso : Bool) (nodes : List Nat) (es : List Edge) (hnd : ∀ e ∈ es, e.Nodup) :
+    (∀ u v a, AL.get? (clique keepIso nodes es).adj (u, v) = some a →
+      AL.get? (clique keepIso nodes es).adj (v, u) = some a) ∧
+    (∀ u, AL.get? (clique keepIso nodes es).adj (u, u) = none) := by
+  have h := (C10_clique keepIso nodes es hnd).1
+  constructor
+  · intro u v a hu
+    obtain ⟨ha, hne, e, he, h1, h2⟩ := (h u v a).1 hu
+    exact (h v u a).2 ⟨ha, hne.symm, e, he, h2, h1⟩
+  · intro u
+    cases hu : AL.get? (clique keepIso nodes es).adj (u, u) with
+    | none => rfl
+    | some a => obtain ⟨_, hne, _⟩ := (h u u a).1 hu; exact absurd rfl hne
+
+/-- **insertion order does not matter**: listings of the same hypergraph (node lists and hyperedge lists permutations of
+each other) give clique projections with the same edges and the same vertex set -/
+theorem C10_clique_listing_order_invariant (keepIso : Bool) (nodes nodes' : List Nat) (es es' : List Edge)
+    (hn : nodes.Perm nodes') (hp : es.Perm es') (hnd : ∀ e ∈ es, e.Nodup) :
+    (∀ u v a, AL.get? (clique keepIso nodes' es').adj (u, v) = some a ↔
+      AL.get? (clique keepIso nodes es).adj (u, v) = some a) ∧
+    (∀ x, x ∈ AL.keys (clique keepIso nodes' es').nodes ↔ x ∈ AL.keys (clique keepIso nodes es).nodes) := by
+  obtain ⟨h1, h2, _⟩ := C10_clique keepIso nodes es hnd
+  obtain ⟨h1', h2', _⟩ := C10_clique keepIso nodes' es' (fun e he => hnd e (hp.mem_iff.2 he))
+  constructor
+  · intro u v a
+    rw [h1, h1']
+    simp only [hp.mem_iff]
+  · intro x
+    rw [h2, h2']
+    simp only [hp.mem_iff, hn.mem_iff]
+
+/-- **relabelling**: renaming the nodes by an injective map renames the clique projection: `f u — f v` exactly when
+`u — v`, and `f x` is a vertex exactly when `x` is -/
+theorem C10_clique_relabel (f : Nat → Nat) (hf : Function.Injective f) (keepIso : Bool) (nodes : List Nat)
+    (es : List Edge) (hnd : ∀ e ∈ es, e.Nodup) :
+    (∀ u v a, AL.get? (clique keepIso (nodes.map f) (es.map (List.map f))).adj (f u, f v) = some a ↔
+      AL.get? (clique keepIso nodes es).adj (u, v) = some a) ∧
+    (∀ x, f x ∈ AL.keys (clique keepIso (nodes.map f) (es.map (List.map f))).nodes ↔
+      x ∈ AL.keys (clique keepIso nodes es).nodes) := by
+  obtain ⟨h1, h2, _⟩ := C10_clique keepIso nodes es hnd
+  obtain ⟨h1', h2', _⟩ := C10_clique keepIso (nodes.map f) (es.map (List.map f))
+    (by intro e he; obtain ⟨e0, he0, rfl⟩ := List.mem_map.1 he; exact (hnd e0 he0).map hf)
+  have hm : ∀ (e : Edge) x, f x ∈ e.map f ↔ x ∈ e := by
+    intro e x
+    constructor
+    · intro h; obtain ⟨y, hy, he⟩ := List.mem_map.1 h; exact hf he ▸ hy
+    · intro h; exact List.mem_map.2 ⟨x, h, rfl⟩
+  constructor
+  · intro u v a
+    rw [h1, h1']
+    simp only [List.mem_map, exists_exists_and_eq_and, hm, ne_eq, hf.eq_iff]
+  · intro x
+    rw [h2, h2']
+    simp only [List.mem_map, exists_exists_and_eq_and, hm, ne_eq, hf.eq_iff]
+
+/-- **clique projection = two-step walks of the bipartite projection**: `u — v` exactly when `u ≠ v` and the vertices
+`N_p`, `N_q` of the two nodes have a common hyperedge vertex `E_j` in the bipartite graph -/
+theorem C10_clique_via_bipartite (keepIso : Bool) (nodes : List Nat) (es : List Edge) (hn : nodes.Nodup)
+    (hnd : ∀ e ∈ es, e.Nodup) (hmem : ∀ e ∈ es, ∀ x ∈ e, x ∈ nodes) (u v : Nat) (a : Option Rat) :
+    AL.get? (clique keepIso nodes es).adj (u, v) = some a ↔
+      a = none ∧ u ≠ v ∧ ∃ p q j, nodes[p]? = some u ∧ nodes[q]? = some v ∧
+        AL.get? (bipartite nodes es).g.adj (.N p, .E j) = some none ∧
+        AL.get? (bipartite nodes es).g.adj (.N q, .E j) = some none := by
+  rw [(C10_clique keepIso nodes es hnd).1]
+  have hb := (C10_bipartite nodes es hn hmem).2.2.2.1
+  constructor
+  · rintro ⟨ha, hne, e, he, hu, hv⟩
+    obtain ⟨p, hp⟩ := List.getElem?_of_mem (hmem e he u hu)
+    obtain ⟨q, hq⟩ := List.getElem?_of_mem (hmem e he v hv)
+    obtain ⟨j, hj⟩ := List.getElem?_of_mem he
+    exact ⟨ha, hne, p, q, j, hp, hq, (hb p j none).2 ⟨rfl, u, e, hp, hj, hu⟩, (hb q j none).2 ⟨rfl, v, e, hq, hj, hv⟩⟩
+  · rintro ⟨ha, hne, p, q, j, hp, hq, h1, h2⟩
+    obtain ⟨_, x, e, hx, he, hxe⟩ := (hb p j none).1 h1
+    obtain ⟨_, y, e', hy, he', hye⟩ := (hb q j none).1 h2
+    rw [hp] at hx; rw [hq] at hy; rw [he] at he'
+    cases hx; cases hy; cases he'
+    exact ⟨ha, hne, e, List.mem_of_getElem? he, hxe, hye⟩
+
+/-- **line graph (intersection) = common neighbours in the bipartite projection**: the value of two hyperedges is the
+number of node vertices `N_p` joined to both `E_i` and `E_j` -/
+theorem C10_line_value_via_bipartite (nodes : List Nat) (es : List Edge) (hn : nodes.Nodup)
+    (hnd : ∀ e ∈ es, e.Nodup) (hmem : ∀ e ∈ es, ∀ x ∈ e, x ∈ nodes) (i j : Nat) (hi : i < es.length) (hj : j < es.length) :
+    interSize es[i] es[j] = (List.range nodes.length).countP (fun p =>
+      (bipartite nodes es).g.hasEdge (.E i) (.N p) && (bipartite nodes es).g.hasEdge (.E j) (.N p)) := by
+  have hI := bip_loop2 nodes hn es hmem
+  rw [← overlap_eq nodes _ _ hn (hnd _ (List.getElem_mem hi)) (hmem _ (List.getElem_mem hi)), overlap_eq_countP]
+  symm
+  apply countP_range_getElem
+  intro p x hx
+  have key : ∀ k (hk : k < es.length), (bipartite nodes es).g.hasEdge (.E k) (.N p) = es[k].contains x := by
+    intro k hk
+    rw [Bool.eq_iff_iff, bip_hasEdge_EN hI, List.contains_iff_mem]
+    constructor
+    · rintro ⟨x', e, h1, h2, h3⟩
+      rw [hx] at h1; cases h1
+      rw [List.getElem?_eq_getElem hk] at h2; cases h2; exact h3
+    · intro h; exact ⟨x, es[k], hx, List.getElem?_eq_getElem hk, h⟩
+  rw [key i hi, key j hj]
+
+/-- **the clique projection of the simplicial complex is the clique projection of the hypergraph**: the downward closure
+adds no new pair of co-occurring nodes -/
+theorem C10_clique_of_simplicial (keepIso : Bool) (nodes : List Nat) (es : List Edge)
+    (hsorted : ∀ e ∈ es, e.Pairwise (· < ·)) (u v : Nat) (a : Option Rat) :
+    AL.get? (clique keepIso nodes (simplicial es)).adj (u, v) = some a ↔
+      AL.get? (clique keepIso nodes es).adj (u, v) = some a := by
+  have nd : ∀ (l : List Nat), l.Pairwise (· < ·) → l.Nodup := fun l h => h.imp (fun h => Nat.ne_of_lt h)
+  have hS := (C10_simplicial es hsorted).1
+  rw [(C10_clique keepIso nodes es (fun e he => nd e (hsorted e he))).1,
+    (C10_clique keepIso nodes (simplicial es) (fun k hk => nd k ((hS k).1 hk).1)).1]
+  constructor
+  · rintro ⟨ha, hne, k, hk, hu, hv⟩
+    obtain ⟨_, e, he, hsub⟩ := (hS k).1 hk
+    exact ⟨ha, hne, e, he, hsub u hu, hsub v hv⟩
+  · rintro ⟨ha, hne, e, he, hu, hv⟩
+    exact ⟨ha, hne, e, C10_simplicial_contains_edges es hsorted e he, hu, hv⟩
+
+/-! ### bipartite projection: degrees -/
+
+/-- **degree identities**: in the bipartite projection the vertex `N_i` of a node has as many neighbours as the node has
+incident hyperedges (`len(h.get_incident_edges(node))`, the node's degree), the vertex `E_j` of a hyperedge has as many
+neighbours as the hyperedge has members (its size).  `degreeOf` is networkx's `g.degree(v)` on the (loop-free) graph.
+Hypotheses: node list duplicate-free, members are nodes, hyperedges duplicate-free. -/
+theorem C10_bipartite_degrees (nodes : List Nat) (es : List Edge) (hn : nodes.Nodup)
+    (hmem : ∀ e ∈ es, ∀ x ∈ e, x ∈ nodes) (hnd : ∀ e ∈ es, e.Nodup) :
+    (∀ i x, nodes[i]? = some x → (bipartite nodes es).g.degreeOf (.N i) = (incident es x).length) ∧
+    (∀ j e, es[j]? = some e → (bipartite nodes es).g.degreeOf (.E j) = e.length) ∧
+    (∀ i x, nodes[i]? = some x → (bipartite nodes es).g.degreeOf (.N i) = cooc es x x) ∧
+    (∀ j e, es[j]? = some e → (bipartite nodes es).g.degreeOf (.E j) = overlap nodes e e) := by
+  refine ⟨fun i x hx => bip_degree_N nodes es hn hmem i x hx, fun j e he => bip_degree_E nodes es hn hmem hnd j e he,
+    ?_, ?_⟩
+  · intro i x hx
+    rw [bip_degree_N nodes es hn hmem i x hx, (C10_gram_matrices nodes es hn hnd hmem).2.1]
+  · intro j e he
+    rw [bip_degree_E nodes es hn hmem hnd j e he,
+      (C10_gram_matrices nodes es hn hnd hmem).2.2.2 e (List.mem_of_getElem? he)]
+
+/-! ### directed line graph: structure -/
+
+/-- no loops; raising `s` only removes arcs (the arcs that stay keep their attribute) -/
+theorem C10_directed_line_loop_free_monotone (es : List DEdge) (d : Dist) (s s' : Rat) (weighted : Bool) (hes : es.Nodup)
+    (hne : d = .jaccard → ∀ e ∈ es, ∀ f ∈ es, e ≠ f → e.2 ≠ [] ∨ f.1 ≠ []) (hss : s ≤ s') :
+    ∃ g g', directedLineGraph es d s weighted = some g ∧ directedLineGraph es d s' weighted = some g' ∧
+      (∀ i, AL.get? g.adj (i, i) = none) ∧
+      (∀ i j a, AL.get? g'.adj (i, j) = some a → AL.get? g.adj (i, j) = some a) := by
+  obtain ⟨g, hg, _, h3⟩ := C10_directed_line es d s weighted hes hne
+  obtain ⟨g', hg', _, h3'⟩ := C10_directed_line es d s' weighted hes hne
+  refine ⟨g, g', hg, hg', ?_, ?_⟩
+  · intro i
+    cases h : AL.get? g.adj (i, i) with
+    | none => rfl
+    | some a => obtain ⟨_, _, hn, _⟩ := (h3 i i a).1 h; exact absurd rfl hn
+  · intro i j a h
+    obtain ⟨hi, hj, hn, hle, ha⟩ := (h3' i j a).1 h
+    exact (h3 i j a).2 ⟨hi, hj, hn, le_trans hss hle, ha⟩
+
+/-- **reversing every hyperedge transposes the directed line graph**: with sources and targets swapped there is an arc
+`i → j` exactly when the original has `j → i`, with the same attribute (sides duplicate-free) -/
+theorem C10_directed_line_reverse (es : List DEdge) (d : Dist) (s : Rat) (weighted : Bool) (hes : es.Nodup)
+    (hside : ∀ e ∈ es, e.1.Nodup ∧ e.2.Nodup)
+    (hne : d = .jaccard → ∀ e ∈ es, ∀ f ∈ es, e ≠ f → (e.2 ≠ [] ∨ f.1 ≠ []) ∧ (e.1 ≠ [] ∨ f.2 ≠ [])) :
+    ∃ g g', directedLineGraph es d s weighted = some g ∧
+      directedLineGraph (es.map Prod.swap) d s weighted = some g' ∧
+      ∀ i j a, AL.get? g'.adj (i, j) = some a ↔ AL.get? g.adj (j, i) = some a := by
+  obtain ⟨g, hg, _, h3⟩ := C10_directed_line es d s weighted hes (fun hd e he f hf hn => (hne hd e he f hf hn).1)
+  have hsw : Function.Injective (Prod.swap : DEdge → DEdge) := Prod.swap_injective
+  obtain ⟨g', hg', _, h3'⟩ := C10_directed_line (es.map Prod.swap) d s weighted (hes.map hsw) (by
+    intro hd e he f hf hn
+    obtain ⟨e0, he0, rfl⟩ := List.mem_map.1 he
+    obtain ⟨f0, hf0, rfl⟩ := List.mem_map.1 hf
+    have := (hne hd e0 he0 f0 hf0 (fun h => hn (by rw [h]))).2
+    simpa using this)
+  refine ⟨g, g', hg, hg', ?_⟩
+  intro i j a
+  rw [h3, h3']
+  have key : ∀ (hi : i < es.length) (hj : j < es.length),
+      distV d es[i].1 es[j].2 = distV d es[j].2 es[i].1 := fun hi hj =>
+    distV_comm d _ _ (hside _ (List.getElem_mem hi)).1 (hside _ (List.getElem_mem hj)).2
+  constructor
+  · rintro ⟨hi, hj, hn, hle, ha⟩
+    have hi' : i < es.length := by simpa using hi
+    have hj' : j < es.length := by simpa using hj
+    simp only [List.getElem_map, Prod.snd_swap, Prod.fst_swap, key hi' hj'] at hle ha
+    exact ⟨hj', hi', hn.symm, hle, ha⟩
+  · rintro ⟨hj, hi, hn, hle, ha⟩
+    refine ⟨by simpa using hi, by simpa using hj, hn.symm, ?_, ?_⟩
+    · simp only [List.getElem_map, Prod.snd_swap, Prod.fst_swap, key hi hj]; exact hle
+    · simp only [List.getElem_map, Prod.snd_swap, Prod.fst_swap, key hi hj]; exact ha
+
+/-! ### `distance` is neither `"intersection"` nor `"jaccard"` -/
+
+/-- With an unknown `distance` string the local `_distance` returns `None` and `None >= s` raises `TypeError` - but only
+when a pair is evaluated: `line_graph` raises exactly when two distinct hyperedges share a node, and otherwise returns
+the edgeless graph on `0..m-1`. -/
+theorem C10_line_unknown_distance (nodes : List Nat) (es : List Edge) (hes : es.Nodup)
+    (hmem : ∀ e ∈ es, ∀ n ∈ e, n ∈ nodes) :
+    (lineGraphUnknown nodes es = none ↔ ∃ e ∈ es, ∃ f ∈ es, e ≠ f ∧ ∃ n, n ∈ e ∧ n ∈ f) ∧
+    (∀ r, lineGraphUnknown nodes es = some r →
+      AL.keys r.g.nodes = List.range es.length ∧ r.g.adj = [] ∧ r.vis = []) := by
+  obtain ⟨hA, hC, hB⟩ := incident_table_ok nodes es hes hmem
+  unfold lineGraphUnknown
+  rw [lineGraphUnknownFrom_eq]
+  constructor
+  · constructor
+    · intro h
+      split at h
+      · cases h
+      · rename_i hne
+        obtain ⟨⟨e, f⟩, hp⟩ := List.exists_mem_of_ne_nil _ hne
+        obtain ⟨l, hl, hpl⟩ := List.mem_flatMap.1 hp
+        have hm := mem_pairsOf_mem hpl
+        exact ⟨e, (hA l hl).2 e hm.1, f, (hA l hl).2 f hm.2, mem_pairsOf_ne (hA l hl).1 hpl, hC l hl e hm.1 f hm.2⟩
+    · rintro ⟨e, he, f, hf, hne, hsh⟩
+      obtain ⟨l, hl, h1, h2⟩ := hB e he f hf hsh
+      have hex : ∃ p, p ∈ (nodes.map (incident es)).flatMap pairsOf := by
+        rcases mem_pairsOf_of_mem h1 h2 hne with h | h
+        · exact ⟨_, List.mem_flatMap.2 ⟨l, hl, h⟩⟩
+        · exact ⟨_, List.mem_flatMap.2 ⟨l, hl, h⟩⟩
+      obtain ⟨p, hp⟩ := hex
+      rw [if_neg (List.ne_nil_of_mem hp)]
+  · intro r h
+    split at h
+    · cases h
+      exact ⟨keys_emptyOn _, adj_emptyOn _, rfl⟩
+    · cases h
+
+/-- `directed_line_graph` with an unknown `distance` raises exactly when there are two distinct hyperedges; otherwise it
+returns the arcless digraph on `0..m-1` -/
+theorem C10_directed_line_unknown_distance (es : List DEdge) :
+    (directedLineGraphUnknown es = none ↔ ∃ e ∈ es, ∃ f ∈ es, e ≠ f) ∧
+    (∀ g, directedLineGraphUnknown es = some g → AL.keys g.nodes = List.range es.length ∧ g.adj = []) := by
+  unfold directedLineGraphUnknown
+  rw [dlg_unknown_fold]
+  constructor
+  · constructor
+    · intro h
+      split at h
+      · cases h
+      · rename_i hn
+        apply Classical.byContradiction
+        intro hc
+        apply hn
+        intro p hp
+        have hm := mem_allOrdered.1 hp
+        apply Classical.byContradiction
+        intro hpne
+        exact hc ⟨p.1, hm.1, p.2, hm.2, hpne⟩
+    · rintro ⟨e, he, f, hf, hne⟩
+      rw [if_neg]
+      intro hall
+      exact hne (hall (e, f) (mem_allOrdered.2 ⟨he, hf⟩))
+  · intro g h
+    split at h
+    · cases h
+      exact ⟨keys_emptyOn _, adj_emptyOn _⟩
+    · cases h
+
+/-! ### simplicial complex: closure operator -/
+
+/-- the downward closure is a closure operator on listings: **idempotent** (closing the complex again adds nothing),
+**monotone** (more hyperedges, larger complex) and **independent of the order** of `get_edges()` -/
+theorem C10_simplicial_closure (es es' : List Edge) (hsorted : ∀ e ∈ es, e.Pairwise (· < ·))
+    (hsorted' : ∀ e ∈ es', e.Pairwise (· < ·)) :
+    (∀ k, k ∈ simplicial (simplicial es) ↔ k ∈ simplicial es) ∧
+    ((∀ e ∈ es, e ∈ es') → ∀ k, k ∈ simplicial es → k ∈ simplicial es') ∧
+    (es.Perm es' → ∀ k, k ∈ simplicial es' ↔ k ∈ simplicial es) := by
+  have hS := (C10_simplicial es hsorted).1
+  have hS' := (C10_simplicial es' hsorted').1
+  refine ⟨?_, ?_, ?_⟩
+  · have hSS := (C10_simplicial (simplicial es) (fun k hk => ((hS k).1 hk).1)).1
+    intro k
+    rw [hSS, hS]
+    constructor
+    · rintro ⟨hk, m, hm, hsub⟩
+      obtain ⟨_, e, he, hme⟩ := (hS m).1 hm
+      exact ⟨hk, e, he, fun x hx => hme x (hsub x hx)⟩
+    · rintro ⟨hk, e, he, hsub⟩
+      exact ⟨hk, e, C10_simplicial_contains_edges es hsorted e he, hsub⟩
+  · intro hsub k hk
+    obtain ⟨hp, e, he, hke⟩ := (hS k).1 hk
+    exact (hS' k).2 ⟨hp, e, hsub e he, hke⟩
+  · intro hp k
+    rw [hS, hS']
+    simp only [hp.mem_iff]
+
+/-- **relabelling by an order-preserving map** (any renaming that keeps the sorted tuples sorted): the complex of the
+renamed hypergraph is the renamed complex -/
+theorem C10_simplicial_relabel (f : Nat → Nat) (hf : ∀ a b, a < b → f a < f b) (es : List Edge)
+    (hsorted : ∀ e ∈ es, e.Pairwise (· < ·)) (k : Edge) :
+    k ∈ simplicial (es.map (List.map f)) ↔ ∃ k0 ∈ simplicial es, k = k0.map f := by
+  have hinj : Function.Injective f := by
+    intro a b h
+    rcases Nat.lt_trichotomy a b with hlt | heq | hgt
+    · exact absurd h (Nat.ne_of_lt (hf a b hlt))
+    · exact heq
+    · exact absurd h.symm (Nat.ne_of_lt (hf b a hgt))
+  have hmapS : ∀ l : List Nat, l.Pairwise (· < ·) → (l.map f).Pairwise (· < ·) := by
+    intro l hl; rw [List.pairwise_map]; exact hl.imp (fun h => hf _ _ h)
+  have hS := (C10_simplicial es hsorted).1
+  have hS' := (C10_simplicial (es.map (List.map f))
+    (by intro e he; obtain ⟨e0, he0, rfl⟩ := List.mem_map.1 he; exact hmapS e0 (hsorted e0 he0))).1
+  rw [hS']
+  constructor
+  · rintro ⟨hk, e, he, hsub⟩
+    obtain ⟨e0, he0, rfl⟩ := List.mem_map.1 he
+    -- pull `k` back along `f`: every member has a preimage in `e0`
+    have hpre : ∀ x ∈ k, ∃ y ∈ e0, f y = x := fun x hx => by
+      obtain ⟨y, hy, h⟩ := List.mem_map.1 (hsub x hx); exact ⟨y, hy, h⟩
+    have hex : ∃ k0 : List Nat, k = k0.map f ∧ ∀ y ∈ k0, y ∈ e0 := by
+      clear hsub hk
+      induction k with
+      | nil => exact ⟨[], rfl, by simp⟩
+      | cons x t ih =>
+        obtain ⟨y, hy, hxy⟩ := hpre x (by simp)
+        obtain ⟨t0, ht0, hm⟩ := ih (fun z hz => hpre z (by simp [hz]))
+        exact ⟨y :: t0, by simp [hxy, ht0], by
+          intro z hz; rcases List.mem_cons.1 hz with rfl | hz
+          · exact hy
+          · exact hm z hz⟩
+    obtain ⟨k0, rfl, hm⟩ := hex
+    refine ⟨k0, (hS k0).2 ⟨?_, e0, he0, hm⟩, rfl⟩
+    rw [List.pairwise_map] at hk
+    exact hk.imp (fun {a b} h => by
+      rcases Nat.lt_trichotomy a b with hlt | heq | hgt
+      · exact hlt
+      · subst heq; exact absurd h (Nat.lt_irrefl _)
+      · exact absurd (Nat.lt_trans h (hf b a hgt)) (Nat.lt_irrefl _))
+  · rintro ⟨k0, hk0, rfl⟩
+    obtain ⟨hp, e, he, hsub⟩ := (hS k0).1 hk0
+    refine ⟨hmapS k0 hp, e.map f, List.mem_map.2 ⟨e, he, rfl⟩, ?_⟩
+    intro x hx
+    obtain ⟨y, hy, rfl⟩ := List.mem_map.1 hx
+    exact List.mem_map.2 ⟨y, hsub y hy, rfl⟩
+
+/-! ### handshake in the bipartite projection -/
+
+/-- **handshake**: the degrees of the node vertices and the degrees of the hyperedge vertices of the bipartite projection
+both add up to the number of incidences `Σ |e|` (= the number of edges of the bipartite graph) -/
+theorem C10_bipartite_handshake (nodes : List Nat) (es : List Edge) (hn : nodes.Nodup)
+    (hmem : ∀ e ∈ es, ∀ x ∈ e, x ∈ nodes) (hnd : ∀ e ∈ es, e.Nodup) :
+    ((List.range nodes.length).map (fun i => (bipartite nodes es).g.degreeOf (.N i))).sum = (es.map List.length).sum ∧
+    ((List.range es.length).map (fun j => (bipartite nodes es).g.degreeOf (.E j))).sum = (es.map List.length).sum := by
+  obtain ⟨hN, hE, _, _⟩ := C10_bipartite_degrees nodes es hn hmem hnd
+  constructor
+  · rw [sum_range_getElem nodes _ (fun x => (incident es x).length) hN]
+    have h1 : nodes.map (fun x => (incident es x).length) = nodes.map (fun x => es.countP (fun e => e.contains x)) := by
+      apply List.map_congr_left; intro x _; unfold incident; rw [List.countP_eq_length_filter]
+    rw [h1, sum_countP_swap nodes es (fun x e => e.contains x)]
+    congr 1
+    apply List.map_congr_left
+    intro e he
+    exact countP_mem_of_subset nodes e hn (hnd e he) (hmem e he)
+  · exact sum_range_getElem es _ List.length hE
+
+/-! ### the new statements for objects reached through ANY history (links to C01, as above) -/
+
+/-- **`line_graph` of any reachable object, every threshold** (also `thr ≤ 0`): `x — y` exactly when `x ≠ y`, the two keys
+of the abstract content share a node and their value is at least `thr`; the graph is symmetric, loop-free, and (intersection
+distance) it is `Bᵀ·B` of the content thresholded at `thr`. -/
+theorem C10_link_line_all_thresholds (k : Nat) (cs : List C01.Cmd) (hwf : ∀ c ∈ cs, c.WF) (i : Nat) (s : C01.Store)
+    (a : C01.Spec) (hs : (C01.run (C01.init k) cs)[i]? = some s)
+    (ha : (C01.Spec.run (C01.Spec.init k) cs)[i]? = some a) (d : Dist) (thr : Rat) (weighted : Bool) :
+    ∃ r, lineGraphH s d thr weighted = some r ∧
+      AL.keys r.g.nodes = List.range (AL.keys a.edges).length ∧
+      (∀ x y w, AL.get? r.g.adj (x, y) = some w ↔
+        ∃ (hx : x < (AL.keys a.edges).length) (hy : y < (AL.keys a.edges).length), x ≠ y ∧
+          (∃ n, n ∈ (AL.keys a.edges)[x] ∧ n ∈ (AL.keys a.edges)[y]) ∧
+          thr ≤ distV d (AL.keys a.edges)[x] (AL.keys a.edges)[y] ∧
+          w = some (if weighted then distV d (AL.keys a.edges)[x] (AL.keys a.edges)[y] else 1)) ∧
+      (∀ x y w, AL.get? r.g.adj (x, y) = some w → AL.get? r.g.adj (y, x) = some w) ∧
+      (∀ x, AL.get? r.g.adj (x, x) = none) ∧
+      (∀ (x y : Nat) (hx : x < (AL.keys a.edges).length) (hy : y < (AL.keys a.edges).length),
+        distV .intersection (AL.keys a.edges)[x] (AL.keys a.edges)[y] =
+          (overlap (AL.keys a.nodes) (AL.keys a.edges)[x] (AL.keys a.edges)[y] : Rat)) := by
+  obtain ⟨_, _, _, _, _, e2, e3, hnn, hes, hE⟩ := C10_link_listings k cs hwf i s a hs ha
+  have hnd : ∀ e ∈ AL.keys a.edges, e.Nodup := fun e he => (hE e he).2.1
+  have hmem : ∀ e ∈ AL.keys a.edges, ∀ n ∈ e, n ∈ AL.keys a.nodes := fun e he => (hE e he).2.2
+  have heq : lineGraphH s d thr weighted = lineGraph (AL.keys a.nodes) (AL.keys a.edges) d thr weighted := by
+    unfold lineGraphH lineGraph
+    rw [e2, e3]
+  obtain ⟨r, hr, hk, h3⟩ := C10_line_all_thresholds _ _ d thr weighted hes hnd hmem
+  obtain ⟨r', hr', hsym, hloop⟩ := C10_line_symmetric_loop_free _ _ d thr weighted hes hnd hmem
+  rw [hr] at hr'; cases hr'
+  refine ⟨r, heq ▸ hr, hk, h3, hsym, hloop, ?_⟩
+  intro x y hx hy
+  rw [overlap_eq _ _ _ hnn (hnd _ (List.getElem_mem hx)) (hmem _ (List.getElem_mem hx))]; rfl
+
+/-- **degrees and Gram matrices for any reachable object**: in `bipartite_projection(h)` the vertex of the `p`-th node has
+degree `len(h.get_incident_edges(node))` (what the OBJECT answers), the vertex of the `q`-th key has degree = size of the
+key, both sides add up to `Σ |key|`; `clique_projection(h)` is the off-diagonal support of `B·Bᵀ` of the abstract content. -/
+theorem C10_link_degrees_and_gram (k : Nat) (cs : List C01.Cmd) (hwf : ∀ c ∈ cs, c.WF) (i : Nat) (s : C01.Store)
+    (a : C01.Spec) (hs : (C01.run (C01.init k) cs)[i]? = some s)
+    (ha : (C01.Spec.run (C01.Spec.init k) cs)[i]? = some a) :
+    (∀ p x, (AL.keys a.nodes)[p]? = some x →
+      (bipartiteH s).g.degreeOf (.N p) = (incidentH s x).length ∧
+      (bipartiteH s).g.degreeOf (.N p) = cooc (AL.keys a.edges) x x) ∧
+    (∀ q e, (AL.keys a.edges)[q]? = some e → (bipartiteH s).g.degreeOf (.E q) = e.length) ∧
+    ((List.range (AL.keys a.nodes).length).map (fun p => (bipartiteH s).g.degreeOf (.N p))).sum =
+      ((AL.keys a.edges).map List.length).sum ∧
+    (∀ keepIso u v w, AL.get? (cliqueH keepIso s).adj (u, v) = some w ↔
+      w = none ∧ u ≠ v ∧ 0 < cooc (AL.keys a.edges) u v) := by
+  obtain ⟨h, rfl⟩ := history01 k cs hwf i s a hs ha
+  obtain ⟨_, _, _, _, e1, e2, _, hnn, hes, hE⟩ := C10_link_listings k cs hwf i s _ hs ha
+  have hnd : ∀ e ∈ AL.keys (C01.abs s).edges, e.Nodup := fun e he => (hE e he).2.1
+  have hmem : ∀ e ∈ AL.keys (C01.abs s).edges, ∀ n ∈ e, n ∈ AL.keys (C01.abs s).nodes := fun e he => (hE e he).2.2
+  unfold bipartiteH cliqueH
+  rw [e1, e2]
+  obtain ⟨hN, hEd, hN', _⟩ := C10_bipartite_degrees _ _ hnn hmem hnd
+  refine ⟨?_, hEd, (C10_bipartite_handshake _ _ hnn hmem hnd).1, ?_⟩
+  · intro p x hx
+    refine ⟨?_, hN' p x hx⟩
+    rw [hN p x hx]
+    have hxn : x ∈ AL.keys s.adj := by
+      have := List.mem_of_getElem? hx
+      rwa [← e1, (nodesH_eq s).2] at this
+    rw [(incidentH_eq s h x hxn).2, ← e2, (edgesH_eq s).2.1]
+  · intro keepIso u v w
+    exact C10_clique_is_gram_support keepIso _ _ hnd u v w
+
+/-! ### non-vacuity of the extension round -/
+
+/-- degrees, Gram matrices and the unknown-distance paths evaluated on the docstring hypergraph (plus an isolated node) -/
+example : (bipartite [1, 2, 3, 4, 5, 9] [[1, 2], [1, 2, 3], [3, 4, 5]]).g.degrees = [2, 2, 2, 1, 1, 0, 2, 3, 3] ∧
+    nodeGram [1, 2, 3, 4] [[1, 2], [1, 2, 3], [3, 4]] = [[2, 2, 1, 0], [2, 2, 1, 0], [1, 1, 2, 1], [0, 0, 1, 1]] ∧
+    edgeGram [1, 2, 3, 4] [[1, 2], [1, 2, 3], [3, 4]] = [[2, 2, 0], [2, 3, 1], [0, 1, 2]] ∧
+    lineGraphUnknown [1, 2, 3, 4] [[1, 2], [1, 2, 3], [3, 4]] = none ∧
+    (∃ r, lineGraphUnknown [1, 2, 3] [[1], [2, 3]] = some r ∧ AL.keys r.g.nodes = [0, 1]) ∧
+    directedLineGraphUnknown [([1], [2]), ([2], [3])] = none ∧
+    (∃ g, directedLineGraphUnknown [([1], [2])] = some g ∧ AL.keys g.nodes = [0]) ∧
+    simplicial (simplicial [[1, 2, 3], [3, 4]]) = simplicial [[1, 2, 3], [3, 4]] := by
+  decide
+
+/-- threshold `-1` (Jaccard): the disjoint hyperedges `0`, `2` are NOT joined, the intersecting ones are -/
+example : ∃ r, lineGraph [1, 2, 3, 4, 5, 9] [[1, 2], [1, 2, 3], [3, 4, 5]] .jaccard (-1) false = some r ∧
+    (¬ ∃ a, AL.get? r.g.adj (0, 2) = some a) ∧ (∃ a, AL.get? r.g.adj (1, 2) = some a) := by
+  obtain ⟨r, hr, h⟩ := C10_line_nonpositive_threshold [1, 2, 3, 4, 5, 9] [[1, 2], [1, 2, 3], [3, 4, 5]] .jaccard (-1) false
+    (by decide) (by decide) (by decide) (by norm_num)
+  refine ⟨r, hr, ?_, ?_⟩
+  · rw [h]; rintro ⟨_, _, _, n, h1, h2⟩
+    revert h1 h2; simp; omega
+  · rw [h]; exact ⟨by decide, by decide, by decide, 3, by decide, by decide⟩
+
+/-- relabelling `n ↦ n + 10` and a reversed listing: hypotheses satisfiable, statements non-trivial (an edge exists) -/
+example : (∃ r r', lineGraph [1, 2, 3, 4, 5] [[1, 2], [1, 2, 3], [3, 4, 5]] .intersection 1 true = some r ∧
+      lineGraph [11, 12, 13, 14, 15] [[11, 12], [11, 12, 13], [13, 14, 15]] .intersection 1 true = some r' ∧
+      (AL.get? r'.g.adj (0, 1) = some (some 2) ↔ AL.get? r.g.adj (0, 1) = some (some 2))) ∧
+    AL.get? (clique false [11, 12, 13] [[11, 12], [12, 13]]).adj (11, 12) = some none ∧
+    (∃ r r', lineGraph [1, 2, 3, 4, 5] [[1, 2], [1, 2, 3], [3, 4, 5]] .intersection 1 true = some r ∧
+      lineGraph [5, 4, 3, 2, 1] [[3, 4, 5], [1, 2, 3], [1, 2]] .intersection 1 true = some r' ∧
+      (AL.get? r'.g.adj (2, 1) = some (some 2) ↔ AL.get? r.g.adj (0, 1) = some (some 2))) := by
+  refine ⟨?_, by decide, ?_⟩
+  · obtain ⟨r, r', h1, h2, _, h4⟩ := C10_line_relabel (· + 10) (fun a b h => by simpa using h) [1, 2, 3, 4, 5]
+      [[1, 2], [1, 2, 3], [3, 4, 5]] .intersection 1 true (by decide) (by decide) (by decide)
+    exact ⟨r, r', h1, h2, h4 0 1 _⟩
+  · obtain ⟨r, r', h1, h2, h3⟩ := C10_line_listing_order_invariant [1, 2, 3, 4, 5] [5, 4, 3, 2, 1]
+      [[1, 2], [1, 2, 3], [3, 4, 5]] [[3, 4, 5], [1, 2, 3], [1, 2]] .intersection 1 true (by decide) (by decide) (by decide)
+      (by decide) (by decide)
+    exact ⟨r, r', h1, h2, h3 [1, 2] (by decide) [1, 2, 3] (by decide) _⟩
+
+/-- the reversed directed hypergraph: arc `1 → 0` there for the arc `0 → 1` here -/
+example : ∃ g g', directedLineGraph [([1, 2], [3]), ([3], [1, 4])] .intersection 1 false = some g ∧
+    directedLineGraph [([3], [1, 2]), ([1, 4], [3])] .intersection 1 false = some g' ∧
+    (AL.get? g'.adj (1, 0) = some none ↔ AL.get? g.adj (0, 1) = some none) := by
+  obtain ⟨g, g', h1, h2, h3⟩ := C10_directed_line_reverse [([1, 2], [3]), ([3], [1, 4])] .intersection 1 false
+    (by decide) (by decide) (by intro h; cases h)
+  exact ⟨g, g', h1, h2, h3 1 0 _⟩
+
+/-- the link theorems of the extension round on the history `demoH`, slot 0 -/
+example : ∃ s, (C01.run (C01.init 2) demoH)[0]? = some s ∧
+    (bipartiteH s).g.degrees = [2, 2, 2, 0, 0, 1, 1, 0, 3, 3, 2] := by
+  refine ⟨_, rfl, by decide⟩
+
+/-! ### vertex order, Jaccard range -/
+
+/-- with `keep_isolated=True` the vertex LIST of the clique projection is `get_nodes()`, in that order (node list
+duplicate-free, members of hyperedges are nodes) -/
+theorem C10_clique_keep_isolated_vertex_list (nodes : List Nat) (es : List Edge) (hn : nodes.Nodup)
+    (hmem : ∀ e ∈ es, ∀ n ∈ e, n ∈ nodes) : AL.keys (clique true nodes es).nodes = nodes := by
+  rw [clique_eq]
+  have h0 : AL.keys (nodes.foldl (fun g n => g.addNode n none) ({} : Graph Nat)).nodes = nodes := by
+    rw [addNodes_keys_list nodes {} hn (by intro x _; simp [AL.keys])]; simp [AL.keys]
+  simp only [if_true]
+  rw [addEdges_nodes_of_mem, h0]
+  intro p hp
+  obtain ⟨e, he, hpe⟩ := List.mem_flatMap.1 hp
+  have hm := mem_pairsOf_mem (x := p.1) (y := p.2) hpe
+  rw [h0]
+  exact ⟨hmem e he _ hm.1, hmem e he _ hm.2⟩
+
+/-- **the Jaccard line graph is a subgraph of the intersection graph**, its weights lie in `[s, 1]`, and for `s ≥ 1` it has
+no edge at all: two distinct canonical hyperedges never have Jaccard similarity 1 -/
+theorem C10_line_jaccard_range (nodes : List Nat) (es : List Edge) (s : Rat) (weighted : Bool)
+    (hes : es.Nodup) (hsorted : ∀ e ∈ es, e.Pairwise (· < ·)) (hmem : ∀ e ∈ es, ∀ n ∈ e, n ∈ nodes) (hs : 0 < s) :
+    ∃ r, lineGraph nodes es .jaccard s weighted = some r ∧
+      (∀ i j a, AL.get? r.g.adj (i, j) = some a →
+        ∃ (hi : i < es.length) (hj : j < es.length), (∃ n, n ∈ es[i] ∧ n ∈ es[j]) ∧
+          s ≤ distV .jaccard es[i] es[j] ∧ distV .jaccard es[i] es[j] < 1) ∧
+      (1 ≤ s → ∀ i j, AL.get? r.g.adj (i, j) = none) := by
+  have hnd : ∀ e ∈ es, e.Nodup := fun e he => (hsorted e he).imp (fun h => Nat.ne_of_lt h)
+  obtain ⟨r, hr, _, h3, _⟩ := C10_line nodes es .jaccard s weighted hes hnd hmem hs
+  have hlt : ∀ i j (hi : i < es.length) (hj : j < es.length), i ≠ j → distV .jaccard es[i] es[j] < 1 := by
+    intro i j hi hj hne
+    apply lt_of_not_ge
+    intro hge
+    simp only [distV] at hge
+    have hu : 0 < unionSize es[i] es[j] := by
+      apply Nat.pos_of_ne_zero; intro h0; rw [h0] at hge; simp at hge; exact absurd hge (by norm_num)
+    have hu' : (0 : Rat) < (unionSize es[i] es[j] : Rat) := by exact_mod_cast hu
+    rw [le_div_iff₀ hu', one_mul] at hge
+    have hge' : unionSize es[i] es[j] ≤ interSize es[i] es[j] := by exact_mod_cast hge
+    obtain ⟨h1, h2⟩ := subset_of_union_le_inter _ _ hge'
+    have s1 := sublist_of_sorted_subset es[j] (hsorted _ (List.getElem_mem hj)) es[i] (hsorted _ (List.getElem_mem hi)) h1
+    have s2 := sublist_of_sorted_subset es[i] (hsorted _ (List.getElem_mem hi)) es[j] (hsorted _ (List.getElem_mem hj)) h2
+    have heq : es[i] = es[j] := s1.antisymm s2
+    have e1 := idOf_getElem hes i hi
+    have e2 := idOf_getElem hes j hj
+    rw [heq] at e1; omega
+  refine ⟨r, hr, ?_, ?_⟩
+  · intro i j a h
+    obtain ⟨hi, hj, hne, hle, _⟩ := (h3 i j a).1 h
+    exact ⟨hi, hj, shares_of_le_distV hs hle, hle, hlt i j hi hj hne⟩
+  · intro h1 i j
+    cases h : AL.get? r.g.adj (i, j) with
+    | none => rfl
+    | some a =>
+      obtain ⟨hi, hj, hne, hle, _⟩ := (h3 i j a).1 h
+      exact absurd (lt_of_le_of_lt (le_trans h1 hle) (hlt i j hi hj hne)) (lt_irrefl _)
+
+example : AL.keys (clique true [4, 1, 3, 2, 9] [[1, 2], [1, 2, 3], [3, 4]]).nodes = [4, 1, 3, 2, 9] ∧
+    AL.keys (clique false [4, 1, 3, 2, 9] [[1, 2], [1, 2, 3], [3, 4]]).nodes = [1, 2, 3, 4] := by decide
+
+/-- Jaccard at `s = 1`: hypotheses satisfiable, the nested hyperedges `{1,2} ⊂ {1,2,3}` are not joined -/
+example : ∃ r, lineGraph [1, 2, 3, 4, 5] [[1, 2], [1, 2, 3], [3, 4, 5]] .jaccard 1 true = some r ∧
+    AL.get? r.g.adj (0, 1) = none := by
+  obtain ⟨r, hr, _, h⟩ := C10_line_jaccard_range [1, 2, 3, 4, 5] [[1, 2], [1, 2, 3], [3, 4, 5]] 1 true
+    (by decide) (by decide) (by decide) (by norm_num)
+  exact ⟨r, hr, h (le_refl _) 0 1⟩
+
+/-- **the binary incidence matrix `B` is the adjacency of the bipartite projection**: `B[i][j] = 1` exactly when the vertices
+`N_i`, `E_j` are joined, i.e. when node `i` belongs to hyperedge `j` (all other entries are 0); `B·Bᵀ` / `Bᵀ·B` are built
+from its rows (`incRow`) and columns (`incCol` = the `j`-th entries of all rows) -/
+theorem C10_incidence_matrix (nodes : List Nat) (es : List Edge) (hn : nodes.Nodup)
+    (hmem : ∀ e ∈ es, ∀ x ∈ e, x ∈ nodes) :
+    (∀ i j : Nat, ((incMatrix nodes es)[i]?.bind (fun row : List Nat => row[j]?)) = some 1 ↔
+      AL.get? (bipartite nodes es).g.adj (.N i, .E j) = some none) ∧
+    (∀ (i j b : Nat), ((incMatrix nodes es)[i]?.bind (fun row : List Nat => row[j]?)) = some b → b = 0 ∨ b = 1) ∧
+    (∀ j e, es[j]? = some e → incCol nodes e = (incMatrix nodes es).map (fun row => row.getD j 0)) := by
+  have hb := (C10_bipartite nodes es hn hmem).2.2.2.1
+  have entry : ∀ i j : Nat, ((incMatrix nodes es)[i]?.bind (fun row : List Nat => row[j]?)) =
+      (nodes[i]?.bind (fun x => es[j]?.map (fun e => if e.contains x then 1 else 0))) := by
+    intro i j
+    simp only [incMatrix, incRow, List.getElem?_map]
+    cases nodes[i]? <;> simp [incRow, List.getElem?_map]
+  refine ⟨?_, ?_, ?_⟩
+  · intro i j
+    rw [entry, hb]
+    cases hx : nodes[i]? with
+    | none => simp
+    | some x =>
+      cases he : es[j]? with
+      | none => simp
+      | some e => by_cases hxe : x ∈ e <;> simp [hxe]
+  · intro i j b
+    rw [entry]
+    cases hx : nodes[i]? with
+    | none => simp
+    | some x =>
+      cases he : es[j]? with
+      | none => simp
+      | some e =>
+        by_cases hxe : x ∈ e
+        · simp only [Option.bind_some, Option.map_some, List.contains_iff_mem, hxe, if_true, Option.some.injEq]
+          intro h; exact Or.inr h.symm
+        · simp only [Option.bind_some, Option.map_some, List.contains_iff_mem, hxe, if_false, Option.some.injEq]
+          intro h; exact Or.inl h.symm
+  · intro j e he
+    simp only [incCol, incMatrix, incRow, List.map_map]
+    apply List.map_congr_left
+    intro x _
+    simp [incRow, List.getD_eq_getElem?_getD, List.getElem?_map, he]
+
+example : incMatrix [1, 2, 3, 4] [[1, 2], [1, 2, 3], [3, 4]] = [[1, 1, 0], [1, 1, 0], [0, 1, 1], [0, 0, 1]] := by decide
+
+/-- **directed line graph of any reachable `DirectedHypergraph`** (C02 link): no loops, monotone in the threshold, and with an
+unknown `distance` the routine raises exactly when the object has at least two hyperedges -/
+theorem C10_link_directed_structure (cs : List C02.Cmd) (hcs : ∀ c ∈ cs, c.WF) (slot : Nat) (s : C02.Store)
+    (a : C02.Spec) (hs : AL.get? (C02.runCmds [] cs) slot = some s)
+    (ha : AL.get? (C02.Spec.runCmds [] cs) slot = some a) (d : Dist) (thr thr' : Rat) (weighted : Bool)
+    (hle : thr ≤ thr') :
+    ∃ g g', directedLineGraphD s d thr weighted = some g ∧ directedLineGraphD s d thr' weighted = some g' ∧
+      (∀ x, AL.get? g.adj (x, x) = none) ∧
+      (∀ x y w, AL.get? g'.adj (x, y) = some w → AL.get? g.adj (x, y) = some w) ∧
+      (directedLineGraphUnknown (edgesD s) = none ↔ 2 ≤ (AL.keys a.edges).length) := by
+  obtain ⟨h, rfl⟩ := history02 cs hcs slot s a hs ha
+  obtain ⟨q1, q2, q3, q4, q5⟩ := edgesD_eq s
+  obtain ⟨hnd, hwf⟩ := dlistingOK_of_inv s h
+  rw [abs_dlistings]
+  unfold directedLineGraphD
+  rw [q2]
+  obtain ⟨g, g', h1, h2, h3, h4⟩ := C10_directed_line_loop_free_monotone _ d thr thr' weighted hnd
+    (fun _ e he f _ _ => Or.inl (hwf e he).2.1) hle
+  refine ⟨g, g', h1, h2, h3, h4, ?_⟩
+  rw [(C10_directed_line_unknown_distance _).1]
+  exact two_distinct_iff _ hnd
+
+/-- slot 0 of `demoD` holds three hyperedges: with an unknown `distance` the routine raises; the history satisfies the hypotheses -/
+example : ∃ s, AL.get? (C02.runCmds [] demoD) 0 = some s ∧ directedLineGraphUnknown (edgesD s) = none :=
+  ⟨_, rfl, by decide⟩
+
+/-- **the id table of the bipartite projection is a bijection** between the vertices of the graph and the nodes plus the
+hyperedges: a vertex has an entry exactly when it is a vertex of the graph, two vertices never share an object, every node
+and every hyperedge is the object of some vertex (node list and hyperedge list duplicate-free) -/
+theorem C10_bipartite_id_table_bijection (nodes : List Nat) (es : List Edge) (hn : nodes.Nodup) (hes : es.Nodup)
+    (hmem : ∀ e ∈ es, ∀ x ∈ e, x ∈ nodes) :
+    (∀ v, (∃ o, AL.get? (bipartite nodes es).idToObj v = some o) ↔ v ∈ AL.keys (bipartite nodes es).g.nodes) ∧
+    (∀ u v o, AL.get? (bipartite nodes es).idToObj u = some o → AL.get? (bipartite nodes es).idToObj v = some o → u = v) ∧
+    (∀ x ∈ nodes, ∃ i, AL.get? (bipartite nodes es).idToObj (.N i) = some (.node x)) ∧
+    (∀ e ∈ es, ∃ j, AL.get? (bipartite nodes es).idToObj (.E j) = some (.edge e)) := by
+  obtain ⟨hk, _, _, _, _, _, _, hN, hE⟩ := C10_bipartite nodes es hn hmem
+  refine ⟨?_, ?_, ?_, ?_⟩
+  · intro v
+    rw [hk]
+    cases v with
+    | N i =>
+      rw [hN]
+      simp only [List.mem_append, List.mem_map, List.mem_range, BV.N.injEq, exists_eq_right, reduceCtorEq, and_false,
+        exists_false, or_false]
+      constructor
+      · rintro ⟨o, ho⟩
+        cases h : nodes[i]? with
+        | none => rw [h] at ho; cases ho
+        | some x => exact (List.getElem?_eq_some_iff.1 h).1
+      · intro hi; exact ⟨_, by rw [List.getElem?_eq_getElem hi]; rfl⟩
+    | E j =>
+      rw [hE]
+      simp only [List.mem_append, List.mem_map, List.mem_range, BV.E.injEq, exists_eq_right, reduceCtorEq, and_false,
+        exists_false, false_or]
+      constructor
+      · rintro ⟨o, ho⟩
+        cases h : es[j]? with
+        | none => rw [h] at ho; cases ho
+        | some x => exact (List.getElem?_eq_some_iff.1 h).1
+      · intro hj; exact ⟨_, by rw [List.getElem?_eq_getElem hj]; rfl⟩
+  · intro u v o hu hv
+    cases u with
+    | N i =>
+      cases v with
+      | N i' =>
+        rw [hN] at hu hv
+        cases h : nodes[i]? with
+        | none => rw [h] at hu; cases hu
+        | some x =>
+          cases h' : nodes[i']? with
+          | none => rw [h'] at hv; cases hv
+          | some x' =>
+            rw [h] at hu; rw [h'] at hv
+            simp only [Option.map_some, Option.some.injEq] at hu hv
+            have hxx : x = x' := by rw [← hv] at hu; cases hu; rfl
+            have hij : nodes[i]? = nodes[i']? := by rw [h, h', hxx]
+            have := (List.getElem?_inj (List.getElem?_eq_some_iff.1 h).1 hn).1 hij
+            rw [this]
+      | E j => rw [hN] at hu; rw [hE] at hv; cases h : nodes[i]? <;> cases h' : es[j]? <;> simp_all <;> (rw [← hv] at hu; cases hu)
+    | E j =>
+      cases v with
+      | N i => rw [hE] at hu; rw [hN] at hv; cases h : nodes[i]? <;> cases h' : es[j]? <;> simp_all <;> (rw [← hv] at hu; cases hu)
+      | E j' =>
+        rw [hE] at hu hv
+        cases h : es[j]? with
+        | none => rw [h] at hu; cases hu
+        | some x =>
+          cases h' : es[j']? with
+          | none => rw [h'] at hv; cases hv
+          | some x' =>
+            rw [h] at hu; rw [h'] at hv
+            simp only [Option.map_some, Option.some.injEq] at hu hv
+            have hxx : x = x' := by rw [← hv] at hu; cases hu; rfl
+            have hij : es[j]? = es[j']? := by rw [h, h', hxx]
+            have := (List.getElem?_inj (List.getElem?_eq_some_iff.1 h).1 hes).1 hij
+            rw [this]
+  · intro x hx
+    obtain ⟨i, hi⟩ := List.getElem?_of_mem hx
+    exact ⟨i, by rw [hN, hi]; rfl⟩
+  · intro e he
+    obtain ⟨j, hj⟩ := List.getElem?_of_mem he
+    exact ⟨j, by rw [hE, hj]; rfl⟩
+
+example : AL.get? (bipartite [10, 20, 30, 40] [[10, 20], [20, 30, 10], [30]]).idToObj (.N 3) = some (.node 40) ∧
+    AL.get? (bipartite [10, 20, 30, 40] [[10, 20], [20, 30, 10], [30]]).idToObj (.N 4) = none ∧
+    AL.get? (bipartite [10, 20, 30, 40] [[10, 20], [20, 30, 10], [30]]).idToObj (.E 1) = some (.edge [20, 30, 10]) := by
+  decide
